@@ -12,9 +12,13 @@ set_option linter.unusedSimpArgs false
 namespace UrcuVerif.CallRcu
 
 /-- the callback a thread inside `call_rcu()` is about to enqueue -/
+def GK.id? : GK → Option Nat
+  | .call id => some id
+  | _ => none
+
 def TPc.pendId : TPc → Option Nat
   | .sel id => some id
-  | .gdLd (.call id) | .gdLock (.call id) | .gdCreate (.call id) | .gdUnlock (.call id) => some id
+  | .gdLd k | .gdLock k | .gdCreate k | .gdUnlock k => k.id?
   | .enq id _ _ => some id
   | _ => none
 
@@ -29,10 +33,10 @@ structure InvA (c : Cfg) (s : State) : Prop where
   b_nodup : ∀ h, (s.batch h).Nodup
   reg_loc : ∀ id, s.reg id = true ↔ s.loc id ≠ .none
   sel_pend : ∀ t id, s.tpc t = .sel id → s.loc id = .pend t
-  gd1_pend : ∀ t id, s.tpc t = .gdLd (.call id) → s.loc id = .pend t
-  gd2_pend : ∀ t id, s.tpc t = .gdLock (.call id) → s.loc id = .pend t
-  gd3_pend : ∀ t id, s.tpc t = .gdCreate (.call id) → s.loc id = .pend t
-  gd4_pend : ∀ t id, s.tpc t = .gdUnlock (.call id) → s.loc id = .pend t
+  gd1_pend : ∀ t k id, s.tpc t = .gdLd k → k.id? = some id → s.loc id = .pend t
+  gd2_pend : ∀ t k id, s.tpc t = .gdLock k → k.id? = some id → s.loc id = .pend t
+  gd3_pend : ∀ t k id, s.tpc t = .gdCreate k → k.id? = some id → s.loc id = .pend t
+  gd4_pend : ∀ t k id, s.tpc t = .gdUnlock k → k.id? = some id → s.loc id = .pend t
   enq_pend : ∀ t id h k, s.tpc t = .enq id h k → s.loc id = .pend t
   pend_tpc : ∀ t id, s.loc id = .pend t → (s.tpc t).pendId = some id
   inv_cnt : ∀ id, s.invN id = if (s.loc id).invoked then 1 else 0
@@ -53,7 +57,7 @@ theorem mem_tail_or_head {l : List Nat} {a x : Nat} (h : l.head? = some a) (hx :
   cases l <;> simp_all
 
 theorem invA_init (c) : InvA c init := by
-  constructor <;> simp [init, TPc.pendId, Loc.invoked]
+  constructor <;> simp [init, TPc.pendId, Loc.invoked, GK.id?]
 
 set_option hygiene false in
 macro "a_tac" : tactic => `(tactic| (
@@ -63,7 +67,7 @@ macro "a_tac" : tactic => `(tactic| (
   all_goals (first | (simp at st; done) | skip)
   all_goals (simp only [Option.some.injEq] at st; subst st)
   all_goals (constructor <;> simp only [upd, lockS, unlockS, newHelper, relocate, K.cont] at * <;>
-    grind [TPc.pendId, Loc.invoked, → mem_of_head?, → mem_of_mem_tail', nodup_tail', head?_notin_tail, → ne_nil_of_head?, mem_tail_or_head])))
+    grind [TPc.pendId, GK.id?, Loc.invoked, → mem_of_head?, → mem_of_mem_tail', nodup_tail', head?_notin_tail, → ne_nil_of_head?, mem_tail_or_head])))
 
 theorem inva_rlock (c : Cfg) {s s' : State} (h : InvA c s) (t : _)
     (st : step c s (.rlock t) = some s') : InvA c s' := by
